@@ -307,6 +307,15 @@ def r2_fresh(program, rep, B, folder):
         raise AnalysisError("send_scp_burst: the sequence number is taken "
                             "from a generator built by a helper; how it "
                             "avoids outstanding numbers is not analysed")
+    if not fresh and any(
+            getattr(h, "_virtual", False) for h in ast.walk(B.T.fn)) and any(
+                x[0] in ("call", "callv") for x in alternatives(B.KEY)
+                if isinstance(x, tuple)):
+        # the number comes out of a helper the reference tree did not have
+        # and whose search for an unused number was not recognised above
+        raise AnalysisError("send_scp_burst: the sequence number is the "
+                            "result of a new helper; how it avoids "
+                            "outstanding numbers was not read")
     rep.check(fresh, "C06-R2", inst,
               "the key inserted has just been tested not to be in the table "
               "(the test dominates the insertion and neither the key nor the "
@@ -886,7 +895,9 @@ def r5_codes(program, rep, folder, fn, fl, cfg, inst):
             seen.add(x.id)
             if fl.node_defs.get(x.id):
                 quiet = False
-            if x.kind == "stmt" and not isinstance(x.ast, ast.Pass):
+            if x.kind == "stmt" and not isinstance(x.ast, (ast.Pass,
+                                                          ast.Continue)):
+                # (``continue`` goes on to the next datagram: no effect)
                 quiet = False
             stack += x.succ
         rep.check(quiet, "C06-R5", inst, "a retryable error reply "
